@@ -61,7 +61,8 @@ Req(seq, val) == [seq |-> seq, ty |-> SequencesTable[seq].req, val |-> val]
 NoReq == [seq |-> "", ty |-> "", val |-> <<>>]
 
 (* ---- client state ---- *)
-NoAcc == [receipt |-> <<>>, status |-> <<>>, pending |-> <<>>, after |-> "", final |-> <<>>, card |-> <<>>, own |-> FALSE]
+\* (issued: the receipt number seen in a reservation, as an option - receipt number 0 is a number, not an absence)
+NoAcc == [receipt |-> <<>>, issued |-> <<>>, status |-> <<>>, pending |-> <<>>, after |-> "", final |-> <<>>, card |-> <<>>, own |-> FALSE]
 Idle(txns) == [txns |-> txns, op |-> "", tok |-> <<>>, amt |-> <<>>, stage |-> "idle", acc |-> NoAcc, res |-> Ok(<<>>)]
 Ret(c, res) == [c EXCEPT !.stage = "ret", !.res = res]
 
@@ -140,7 +141,7 @@ Fold(cfg, c, replies, i) ==
                  IF code \notin KnownCodes THEN Fail(c, Err("Other", code, UnknownCodeText(code)))
                  ELSE IF code = 252 THEN Fail(c, Err("NeedsPinEntry", 0 - 1, ""))
                  ELSE Fail(c, Err("Aborted", code, "")))
-           ELSE IF v = "StatusInformation" /\ d.receipt_no # <<>> THEN [c EXCEPT !.acc.receipt = d.receipt_no[1]]
+           ELSE IF v = "StatusInformation" /\ d.receipt_no # <<>> THEN [c EXCEPT !.acc.issued = d.receipt_no]
            ELSE c
       [] c.stage = "reverse" ->
            IF v = "PartialReversalAbort" THEN Fail(c, Err("Aborted", DToInt(d.error), ""))
@@ -199,8 +200,8 @@ OnReplies(cfg, c, replies) ==
   IF f.stage = "ret" THEN f
   ELSE
   CASE c.stage = "reserve" ->
-         IF f.acc.receipt = <<>> THEN Fail(f, Err("Incomplete", 0 - 1, ""))
-         ELSE Ret([f EXCEPT !.txns = With(f.txns, f.tok, f.acc.receipt)], Ok(<<>>))
+         IF f.acc.issued = <<>> THEN Fail(f, Err("Incomplete", 0 - 1, ""))
+         ELSE Ret([f EXCEPT !.txns = With(f.txns, f.tok, f.acc.issued[1])], Ok(<<>>))
     [] c.stage = "reverse" ->
          IF f.txns = Empty THEN StartTail(f, "commit") ELSE Finish(cfg, [f EXCEPT !.acc.after = "commit"])
     [] c.stage = "cancel-rev" ->
